@@ -403,6 +403,19 @@ def r10_2(chk, repo, cr):
     chk.ob("R10.2", SX, "_parse_atom_line", "the reader takes token 5, when present, as the occupancy", occ_r is not None and
            f"float({line_p}.split()[5])" in occ_r.key() or (occ_r is not None and f"{line_p}.split()[5]" in occ_r.key()), fingerprint="res-occupancy-reader",
            found=str(occ_r)[:100])
+    # "when present" means: whenever the line has a sixth token -- the writer's atom line ends with the occupancy (six fields), so a test that
+    # asks for more tokens than that ignores the occupancies the library itself wrote
+    oa = occ_r.as_atom() if occ_r is not None else None
+    if oa and oa[0] == "ite" and f"{line_p}.split()[5]" in oa[2].key() and f"{line_p}.split()" not in oa[3].key():
+        ca = oa[1].as_atom()
+        ntok = f"len({line_p}.split())"
+        need = None            # smallest number of tokens for which the occupancy is read
+        if ca and ca[0] in ("lt", "le") and ca[2].key() == ntok and ca[1].key().lstrip("-").isdigit():
+            need = int(ca[1].key()) + (1 if ca[0] == "lt" else 0)
+        elif ca and ca[0] == "ne" and ca[1].key() in (ntok, "5") and ca[2].key() in (ntok, "5"):
+            need = 6           # tokens[:5] are indexed unconditionally, so len != 5 is len >= 6
+        chk.ob("R10.2", SX, "_parse_atom_line", "token 5 is read as the occupancy on every line that has six or more tokens (the writer's atom line "
+               "has exactly six)", need == 6, fingerprint="res-occupancy-present", expected=f"len({line_p}.split()) > 5", found=str(oa[1])[:100])
     # CELL
     cv = sx.ev("_parse_cell")
     rc = dict_items(cv.returns[0].value)
